@@ -953,6 +953,8 @@ class Interp:
                 return Tensor((a.shape[0],), [vsum(tov(a.get([i, l])) * tov(b.items[l]) for l in range(b.shape[0])) for i in range(a.shape[0])])
             if len(a.shape) == 1 and len(b.shape) == 1 and a.shape == b.shape:
                 return vsum(tov(x) * tov(y) for x, y in zip(a.items, b.items))
+        if isinstance(a, Tensor) and len(a.shape) == 2 and isinstance(b, (Arr, View, OpqArr)) and _ndim(b) == 2:
+            return MatMul(a, b)
         self.err(node, "unsupported matmul operands")
 
     def concretise(self, v, node, shape=None):
@@ -1562,6 +1564,46 @@ class AtLeast2D(OpqArr):
         raise AnalysisError("KEX: cannot resolve leading index of atleast_2d view")
 
 
+class MatMul(OpqArr):
+    """Tensor (n x k, literal) @ array-like (k x N): [i, j] -> sum_l A[i, l] * B[l, j]."""
+
+    def __init__(self, a, b):
+        OpqArr.__init__(self, "matmul", 2)
+        self.a, self.b = a, b
+
+    def sub(self, it, spec, node):
+        if len(spec) == 2 and spec[0][0] == "fix" and spec[1][0] == "fix":
+            i = _try_int(spec[0][1])
+            if i is None:
+                it.err(node, "symbolic row index into matrix product")
+            return vsum(tov(self.a.get([i, l])) * tov(it.index(self.b, [l, spec[1][1]], node)) for l in range(self.a.shape[1]))
+        full = list(spec) + [("all",)] * (2 - len(spec))
+        return View(self, full)
+
+
+def _np_zeros_like(it, args, kw, e):
+    a = args[0]
+    if isinstance(a, Tensor):
+        return Tensor(a.shape, [V.const(0)] * len(a.items))
+    nd = _ndim(a)
+    shape = None
+    if isinstance(a, Arr) and a.shape is not None:
+        shape = list(a.shape)
+    elif nd is not None:
+        shape = [it.shape_of(a, k) for k in range(nd)]
+    return Arr("?", "zeros", ndim=nd, shape=shape, depth=len(it.loops))
+
+
+def _np_identity(it, args, kw, e):
+    return args[0]
+
+
+def _np_arange(it, args, kw, e):
+    if len(args) == 1 and isinstance(args[0], int):
+        return Tensor((args[0],), [V.const(i) for i in range(args[0])])
+    it.err(e, "arange of symbolic length")
+
+
 class Stack(OpqArr):
     """np.vstack of rank-1 array-likes: [k, j] -> operand_k[j]."""
 
@@ -1630,6 +1672,11 @@ for _p in ("_np", "np", "numpy"):
     _NP_FUNCS[_p + ".vstack"] = _np_vstack
     _NP_FUNCS[_p + ".expand_dims"] = _np_expand_dims
     _NP_FUNCS[_p + ".eye"] = _np_eye
+    _NP_FUNCS[_p + ".zeros_like"] = _np_zeros_like
+    _NP_FUNCS[_p + ".require"] = _np_identity
+    _NP_FUNCS[_p + ".asfortranarray"] = _np_identity
+    _NP_FUNCS[_p + ".ascontiguousarray"] = _np_identity
+    _NP_FUNCS[_p + ".arange"] = _np_arange
     _NP_FUNCS[_p + ".zeros"] = _np_zeros("zeros")
     _NP_FUNCS[_p + ".empty"] = _np_zeros("empty")
     _NP_FUNCS[_p + ".array"] = _np_array
